@@ -529,7 +529,7 @@ def run(ctx):
         sweep_table.append({k: r[k] for k in ("family", "pair", "lines", "hot", "points", "hot_points", "complete_hot")})
         violations += r["viols"]
         n_eval += r["points"]
-        for k in range(r["points"]):
+        for k in range(r["hot_points"]):          # only insertions right after a touch of process-global state count as non-trivial
             inter.add(("sweep", tuple(r["pair"]), k))
     by_strategy = {}
     kinds = {}
@@ -566,7 +566,7 @@ def run(ctx):
         "evaluations": n_eval,
         "distinct_nontrivial": len(inter),
         "rule": "one evaluation = one scenario of 2-3 client threads x 1-3 API calls executed under the seeded baton scheduler in a pristine forked process. "
-                "distinct_nontrivial = distinct (scenario, interleaving digest, digest of the (thread, shared-state line) subsequence) with >= 2 thread switches of which >= 1 happened at a line that touches process-global state (or at a simulated lock).",
+                "distinct_nontrivial = distinct (scenario, interleaving digest, digest of the (thread, shared-state line) subsequence) with >= 2 thread switches of which >= 1 happened at a line that touches process-global state (or at a simulated lock), plus the distinct 'hot' insertion points of the atomicity sweep (see atomicity_sweep).",
         "samples": samples or [{"note": "none"}],
         "simulated_steps": steps, "thread_switches": switches, "simulated_lock_contentions": contended,
         "shared_state_line_events": shared, "connections_still_open_after_scenarios_informational": open_after, "scenarios_by_strategy": by_strategy, "scenarios_by_call_kind": kinds,
